@@ -51,10 +51,17 @@ def run(chk):
                 return "writing the re-read manifest does not reproduce the file byte for byte"
             return None
 
-        core.differential(chk, "docs_manifests:" + kind, cases, "roundtrip_" + kind,
-                          model_cases=[[c["compose"], c["ops"]] for c in cases], impl_fn="impl_roundtrip",
+        from suites import ops_manifests as OM
+        _, _, dis = core.differential(chk, "docs_manifests:" + kind, cases, "roundtrip_" + kind,
+                          model_cases=[[c["compose"], OM.resolve_ops(c, False)] for c in cases], impl_fn="impl_roundtrip",
                           nontrivial=lambda c, r: r[0] == "ok" and len(r[2]) >= 1, oracle=oracle,
                           normalise=lambda r: r[:2] if (isinstance(r, list) and len(r) == 3) else r)
+        # the reference model files every entry where the add calls say: a written manifest that differs from the model's
+        # (same calls, same compose section) is a failing input in its own right
+        for d in dis[:3]:
+            if isinstance(d["impl"], list) and d["impl"] and d["impl"][0] == "ok" and d["model"] and d["model"][0] == "ok":
+                chk.violation("the %s manifest written after these add calls differs from the documented layout: %s, reference model: %s" %
+                              (kind, core.canon(d["impl"][1][0])[:300], core.canon(d["model"][1][0])[:300]), d["case"], "docs_manifests:" + kind)
     return chk.finish(
         rule="a valid compose section (all compose types, labels or none) + a history of 0-10 add calls (valid and refused mixed); "
              "the written text, the re-read compose section and mapping, and the second write are compared with the model "
